@@ -124,7 +124,8 @@ class P(Play):
                     if e not in exp:
                         exp.append(e)
         allowed = [str(e) for e in sm.allowed_events]
-        if allowed != exp:
+        # (with a declaration plan, the order in which a state's events were declared is the plan's, not the spec's)
+        if (sorted(allowed) != sorted(exp)) if self.spec.get("style") else (allowed != exp):
             kind = "allowed-events-duplicates" if len(set(allowed)) != len(allowed) else "allowed-events"
             raise Fail(kind, f"{what}: allowed_events == {allowed} in state {it.sid(it.state)}, expected {exp}")
         for e in sm.allowed_events:
@@ -233,6 +234,13 @@ def cases(draw, tier):
     if vals is not None:  # allowed_events / events must not depend on the kind of value a state stores (falsy ones included)
         for s_, v in zip(spec["states"], vals):
             s_["value"] = v
+    if not mixin and draw(st.integers(0, 2)) == 0:
+        # the entry points must not depend on how the events were declared (event= strings, class attributes, Event objects,
+        # one event declared in several places, inherited / extended classes, from_.any())
+        from .c15 import plan
+
+        inline_state = kind not in ("ids", "int") or any(c["scope"][0] == "state" and c["attach"] != "conv" for c in spec["cbs"])
+        spec["style"] = draw(plan(spec, draw(gen.add_bundle(spec)), inline_state, extend=True))
     is_async = gen.is_async_spec(spec)
     if mixin:
         cfg = {"rtc": True, "allow": False, "driver": "sync", "activate": False, "mixin": True}
